@@ -38,7 +38,8 @@ MSeal == /\ Consume("seal") /\ Ev.hdv = Ev.dv /\ ~Known(Ev.e)
          /\ UNCHANGED opened
 MForge == Consume("forge") /\ UNCHANGED <<sealed, opened>>
 MTamper == Consume("tamper") /\ UNCHANGED <<sealed, opened>>
-MOpen == /\ Consume("open")
+\* what earlier opens returned is still what they returned (results do not alias a reused buffer)
+MOpen == /\ Consume("open") /\ (("kept" \in DOMAIN Ev) => Ev.kept)
          /\ LET honest == Ev.hon # "" /\ Known(Ev.hon) IN
               /\ Ev.ok => /\ honest
                           /\ RecOf(Ev.hon).g = Ev.g /\ RecOf(Ev.hon).dv = Ev.rdv
